@@ -32,6 +32,10 @@ rc, txt = run_demo(); out['demo_clean_rc'] = rc
 ptxt = open(patch).read().replace('a/tmp/seed_%s/' % prop, 'a/').replace('b/tmp/seed_%s/' % prop, 'b/')
 open('/tmp/vf_patch.diff', 'w').write(ptxt)
 p = sh('git -C %s apply /tmp/vf_patch.diff' % WT)
+if p.returncode != 0:
+    # the tree moved on since the patch was written: try with fuzz
+    p = sh('cd %s && patch -p1 -F3 --no-backup-if-mismatch < /tmp/vf_patch.diff' % WT)
+    out['applied_with_fuzz'] = p.returncode == 0
 out['applies'] = p.returncode == 0
 if p.returncode != 0:
     out['apply_err'] = p.stderr[-300:]
